@@ -42,7 +42,7 @@ type thread struct {
 	commit     func()
 	arrival    int64
 	harness    bool
-	lastRun    int // scheduler step at which the thread was last woken (fair scheduling)
+	lastRun    int             // scheduler step at which the thread was last woken (fair scheduling)
 	owners     func() []string // names of the threads currently holding what this op waits for
 }
 
@@ -63,7 +63,7 @@ type Sched struct {
 	// AtomicOps: never switch away from a running thread that is still enabled unless it is at
 	// an explicit yield/start point (used to compute the sequential reference outcomes with
 	// the same machinery)
-	AtomicOps  bool
+	AtomicOps bool
 	// OnAbort is called once when the scheduler gives up on an execution (deadlock or step
 	// horizon) and starts draining; the harness should cancel contexts so that loops end.
 	OnAbort    func()
@@ -72,11 +72,11 @@ type Sched struct {
 	// another thread could run is switched away from without consulting the explorer (fair
 	// scheduling of retry loops such as "load, see the old value, try again": the loop is only
 	// left when the other thread makes progress). Not counted as a preemption.
-	FairAfter int
-	streak    int
-	committing *thread
-	Trace    []string
-	KeepTrace bool
+	FairAfter   int
+	streak      int
+	committing  *thread
+	Trace       []string
+	KeepTrace   bool
 	harnessLive int
 }
 
@@ -99,11 +99,11 @@ func Active() *Sched { return active.Load() }
 
 // Result of one execution.
 type Result struct {
-	Deadlock   bool
-	Stuck      string // description of parked threads when deadlocked
-	Cycle      []string // operation kinds on the wait-for cycle (sorted), if one was found
-	Horizon    bool   // MaxSteps reached
-	Steps      int
+	Deadlock    bool
+	Stuck       string   // description of parked threads when deadlocked
+	Cycle       []string // operation kinds on the wait-for cycle (sorted), if one was found
+	Horizon     bool     // MaxSteps reached
+	Steps       int
 	Preemptions int
 }
 
@@ -449,6 +449,19 @@ func (s *Sched) abort() {
 	if s.OnAbort != nil {
 		s.OnAbort()
 	}
+}
+
+// BlockedUnhooked reports whether the named harness thread exists, has not finished and is not
+// parked at a hooked operation, i.e. (at quiescence) it is blocked on an un-hooked channel,
+// select, WaitGroup or timer. Only for use inside ExtraAction.Enabled callbacks, which the
+// scheduler evaluates at quiescence with its table lock held.
+func (s *Sched) BlockedUnhooked(name string) bool {
+	for _, th := range s.order {
+		if th.name == name {
+			return !th.parked && !th.done
+		}
+	}
+	return false
 }
 
 // Free reports whether the scheduler is draining (model lock state must be ignored).
